@@ -74,6 +74,7 @@ const jsonGenAfter = "导入《@JSON》\n输入坏、甲、乱\n如何试生？\
 
 const jsonGen = "导入《@JSON》\n输入甲\n输出（生成JSON：甲）\n"
 const jsonParse = "导入《@JSON》\n输入甲\n输出（解析JSON：甲）\n"
+const jsonParseGen = "导入《@JSON》\n输入甲\n输出（生成JSON：（解析JSON：甲））\n"
 const jsonRound = "导入《@JSON》\n输入甲\n令文 = （生成JSON：甲）\n令乙 = （解析JSON：文）\n（显示：乙 为 甲）\n输出乙\n"
 const jsonCatchParse = "导入《@JSON》\n输入甲\n令乙 = （解析JSON：甲）\n输出“no-error”\n拦截异常：\n    输出“caught”\n"
 const jsonCatchGen = "导入《@JSON》\n输入甲\n令乙 = （生成JSON：甲）\n输出“no-error”\n拦截异常：\n    输出“caught”\n"
@@ -89,6 +90,8 @@ func handleJSON(raw json.RawMessage) interface{} {
 		o = zn.RunScript(jsonGen, r.ElementMap{"甲": buildVal(c.Val)})
 	case "parse":
 		o = zn.RunScript(jsonParse, r.ElementMap{"甲": value.NewString(c.Text)})
+	case "parsegen":
+		o = zn.RunScript(jsonParseGen, r.ElementMap{"甲": value.NewString(c.Text)})
 	case "round":
 		o = zn.RunScript(jsonRound, r.ElementMap{"甲": buildVal(c.Val)})
 	case "catchparse":
